@@ -55,7 +55,7 @@ def run(ctx):
     ctx.tlc_exhaustive("MCTxGuardChain", cfg2, timeout=900, dump=dot2)
     negative(ctx, "MCTxGuardChain_negdup.cfg", ("AtMostOnce",), module="MCTxGuardChain")
     negative(ctx, "MCTxGuardChain_negenc.cfg", ("AtMostOnce",), module="MCTxGuardChain")
-    files2, summ2 = ctx.replay("replayprot", graph=dot2, shards=16, maxlen=30, limit=900 if ctx.quick() else 0, timeout=2400)
+    files2, summ2 = ctx.replay("replayprot", graph=dot2, shards=16, maxlen=30, limit=600 if ctx.quick() else 0, timeout=2400)
     ok2 = ctx.validate("TraceTxGuardChain", "TraceTxGuardChain.cfg", files2, what="layer 2: placements offered to the real engine", timeout=1800)
     ctx.extra["l2_transitions_in_graph"] = summ2["graph_edges"]
     ctx.extra["l2_behaviours_replayed"] = "%d of %d" % (summ2["behaviours"], summ2["behaviours_total"])
@@ -63,7 +63,7 @@ def run(ctx):
     # window / pruning / restart-reload boundaries through the engine: 3 offered blocks, small menu
     dot3 = ctx.path("txguardchain_window.dot")
     ctx.tlc_exhaustive("MCTxGuardChain", "MCTxGuardChain_windowq.cfg" if ctx.quick() else "MCTxGuardChain_window.cfg", timeout=900, dump=dot3)
-    filesw, summw = ctx.replay("replayprot", graph=dot3, shards=16, maxlen=30, limit=700 if ctx.quick() else 0, name="replayprot_window", timeout=2400)
+    filesw, summw = ctx.replay("replayprot", graph=dot3, shards=16, maxlen=30, name="replayprot_window", timeout=2400)
     ctx.validate("TraceTxGuardChain", "TraceTxGuardChain.cfg", filesw, what="layer 2: window/pruning/restart boundaries", timeout=1800)
     ctx.extra["l2_window_behaviours_replayed"] = "%d of %d" % (summw["behaviours"], summw["behaviours_total"])
     # the engine's own miner with a pool filled by the engine's fork bookkeeping (recording driver)
